@@ -2,6 +2,7 @@ package kit
 
 import (
 	"context"
+	"errors"
 	"fmt"
 	"math/rand"
 	"runtime"
@@ -69,6 +70,18 @@ type ConnectorConfig struct {
 	// (RouteErrors), nothing is forwarded and Consume returns an error naming the instance key and
 	// "cannot route". Destination signals without a key are broadcast to all connected pipelines.
 	Routes map[string][]string `mapstructure:"routes"`
+	// RouteSequence (per destination signal, takes precedence over Routes) makes the connector send
+	// the SAME outgoing payload to several routes one after another, as a connector does that
+	// serves several routes from one payload: every entry is a route requested through
+	// Consumer(ids...), the entry ["*"] stands for the default consumer (all connected pipelines).
+	// Use it together with MarkReadOnly and a mode other than pass: a payload that goes to several
+	// consumers in turn must be read-only, otherwise a mutating pipeline behind an earlier route
+	// legitimately changes what the later routes receive.
+	RouteSequence map[string][][]string `mapstructure:"route_sequence"`
+	// MarkReadOnly makes the connector mark its outgoing payload read-only before forwarding
+	// (convert and mutate modes: the payload is the connector's own; ignored in pass mode) and retain
+	// it with its bytes for the non-interference oracle (Env.Retained).
+	MarkReadOnly bool `mapstructure:"mark_read_only"`
 }
 
 // ExtensionConfig configures kext.
@@ -283,6 +296,8 @@ type connectorC struct {
 	next     Next
 	routing  bool     // a route is configured for the destination signal
 	route    []string // the route as written
+	seq      [][]string
+	markRO   bool
 }
 
 func (c *connectorC) Capabilities() consumer.Capabilities {
@@ -308,6 +323,29 @@ func (c *connectorC) consume(ctx context.Context, pl Payload) error {
 		m := pl.Msg()
 		out = NewPayload(c.to, Msg{Tag: m.Tag, Trail: append(append([]string(nil), m.Trail...), entry)}, nil)
 		seq.Add(1)
+	}
+	if c.markRO && c.mode != "pass" {
+		out.MarkReadOnly()
+		m := out.Msg()
+		c.env.retain(&Retained{Key: c.key, Inst: c.inst, Tag: m.Tag, AtSend: out.Marshal(), Kept: out})
+	}
+	if len(c.seq) > 0 {
+		var errs []error
+		for _, route := range c.seq {
+			next := c.next
+			if !(len(route) == 1 && route[0] == "*") {
+				n, err := requestRoute(c.next, route)
+				if err != nil {
+					m := out.Msg()
+					c.env.routeError(RouteError{Key: c.key, Inst: c.inst, Tag: m.Tag, Trail: m.Trail, Route: route, Err: err.Error()})
+					errs = append(errs, fmt.Errorf("kit: %s cannot route to %v: %w", c.key, route, err))
+					continue
+				}
+				next = n
+			}
+			errs = append(errs, next.Consume(ctx, out))
+		}
+		return errors.Join(errs...)
 	}
 	next := c.next
 	if c.routing {
@@ -403,7 +441,8 @@ func (e *Env) newConnector(from, to Signal, id component.ID, cfg component.Confi
 	key := ConnKey(from, to, id.String())
 	inst := e.created(key)
 	route, routing := cc.Routes[string(to)]
-	return &connectorC{comp: comp{env: e, key: key, inst: inst}, id: id.String(), from: from, to: to, mode: mode, next: next, routing: routing, route: route}, nil
+	return &connectorC{comp: comp{env: e, key: key, inst: inst}, id: id.String(), from: from, to: to, mode: mode, next: next, routing: routing, route: route,
+		seq: cc.RouteSequence[string(to)], markRO: cc.MarkReadOnly}, nil
 }
 
 func (e *Env) connectorFactory(typ string, pairs []Pair) connector.Factory {
